@@ -354,12 +354,14 @@ def gaussian_filter1d(array, sigma, axis=-1, order=0, mode='reflect', cval=0., o
     # implement first, second and third order derivatives:
     if order == 0:
         pass
+    # convolve1d correlates (it does not flip the kernel), so the odd
+    # (antisymmetric) derivative kernels are written already reversed
     elif order == 1 : # first derivative
-        weights *= -x/s2
+        weights *= x/s2
     elif order == 2: # second derivative
         weights *= (x*x/s2-1.)/s2
     elif order == 3: # third derivative
-        weights *= (3.0 - x*x/s2)*x/(s2*s2)
+        weights *= -(3.0 - x*x/s2)*x/(s2*s2)
     else:
         raise ValueError('mahotas.convolve.gaussian_filter1d: Order outside 0..3 not implemented')
     return convolve1d(array, weights, axis, mode, cval, out=output)
